@@ -1,3 +1,176 @@
 import DaeVerif.C15.Model
 namespace DaeVerif.C15
+
+def ASet.ds (s : ASet) : List Nat := s.entries.map (·.d)
+
+structure IdxInv (s : ASet) : Prop where
+  fwd : ∀ d k, d < s.n → s.idx d = .at k → s.ds[k]? = some d
+  bwd : ∀ k d, s.ds[k]? = some d → d < s.n ∧ s.idx d = .at k
+  noPanic : s.panicked = false
+
+theorem idxInv_init (n : Nat) (tol : Int) (offs : Nat → Int) (p : Policy) :
+    IdxInv (ASet.init n tol offs p) := by
+  constructor
+  · intro d k hd h
+    have hd' : d < n := hd
+    simp [ASet.init, hd'] at h
+  · intro k d h; simp [ASet.init, ASet.ds] at h
+  · rfl
+
+theorem idxInv_join (s : ASet) (d : Nat) (h : IdxInv s) (hd : d < s.n) (hn : ∀ k, s.idx d ≠ .at k) :
+    IdxInv (join s d) := by
+  have hf := h.fwd
+  have hb := h.bwd
+  constructor
+  · intro d' k hd' hk
+    simp only [join, upd] at hk
+    simp only [ASet.ds, join, List.map_append, List.map_cons, List.map_nil] at *
+    grind
+  · intro k d' hk
+    simp only [ASet.ds, join, List.map_append, List.map_cons, List.map_nil, upd] at *
+    grind
+  · exact h.noPanic
+
+end DaeVerif.C15
+
+namespace DaeVerif.C15
+
+theorem ds_length (s : ASet) : s.ds.length = s.entries.length := by simp [ASet.ds]
+
+theorem ds_getElem? (s : ASet) (k : Nat) : s.ds[k]? = (s.entries[k]?).map (·.d) := by
+  simp [ASet.ds]
+
+theorem idxInv_removeAt (s : ASet) (d k : Nat) (h : IdxInv s) (hd : d < s.n) (hk : s.idx d = .at k) :
+    IdxInv (removeAt s d k) := by
+  have hf := h.fwd
+  have hb := h.bwd
+  have hp := h.noPanic
+  have hdk := hf d k hd hk
+  have hlen := ds_length s
+  have hklt : k < s.entries.length := by
+    have := (List.getElem?_eq_some_iff.mp hdk).1; omega
+  unfold removeAt
+  rw [if_neg (by omega)]
+  simp only
+  by_cases hlast : k < s.entries.length - 1
+  · rw [if_pos hlast]
+    have hsw : s.ds[s.entries.length - 1]? = some (s.entries.getD (s.entries.length - 1) default).d := by
+      rw [ds_getElem?, List.getD_eq_getElem?_getD]
+      have : s.entries.length - 1 < s.entries.length := by omega
+      simp [List.getElem?_eq_getElem this]
+    have hswb := hb _ _ hsw
+    have hne : (s.entries.getD (s.entries.length - 1) default).d ≠ d := by
+      intro he; rw [he] at hswb; rw [hk] at hswb; cases hswb.2; omega
+    rw [if_neg hne]
+    constructor
+    · intro d' k' hd' hk'
+      simp only [upd] at hk'
+      simp only [ASet.ds, List.map_dropLast, List.map_set] at *
+      grind
+    · intro k' d' hk'
+      simp only [ASet.ds, List.map_dropLast, List.map_set, upd] at *
+      grind
+    · exact hp
+  · rw [if_neg hlast]
+    constructor
+    · intro d' k' hd' hk'
+      simp only [upd] at hk'
+      simp only [ASet.ds, List.map_dropLast] at *
+      grind
+    · intro k' d' hk'
+      simp only [ASet.ds, List.map_dropLast, upd] at *
+      grind
+    · exact hp
+
+end DaeVerif.C15
+
+namespace DaeVerif.C15
+
+theorem idxInv_congr {s s' : ASet} (h : IdxInv s) (hn : s'.n = s.n) (hi : s'.idx = s.idx)
+    (hds : s'.ds = s.ds) (hp : s'.panicked = s.panicked) : IdxInv s' := by
+  constructor
+  · intro d k hd hk; rw [hds]; rw [hn] at hd; rw [hi] at hk; exact h.fwd d k hd hk
+  · intro k d hk; rw [hds] at hk; rw [hn, hi]; exact h.bwd k d hk
+  · rw [hp]; exact h.noPanic
+
+theorem mem_entries_iff (s : ASet) (e : Entry) : e ∈ s.entries ↔ ∃ k : Nat, s.entries[k]? = some e :=
+  List.mem_iff_getElem?
+
+theorem idx_of_mem {s : ASet} (h : IdxInv s) {e : Entry} (he : e ∈ s.entries) :
+    e.d < s.n ∧ ∃ k, s.idx e.d = .at k ∧ s.entries[k]? = some e := by
+  obtain ⟨k, hk⟩ := List.mem_iff_getElem?.mp he
+  have : s.ds[k]? = some e.d := by rw [ds_getElem?, hk]; rfl
+  have := h.bwd k e.d this
+  exact ⟨this.1, k, this.2, hk⟩
+
+theorem entries_inj {s : ASet} (h : IdxInv s) {e1 e2 : Entry} (h1 : e1 ∈ s.entries) (h2 : e2 ∈ s.entries)
+    (hd : e1.d = e2.d) : e1 = e2 := by
+  obtain ⟨_, k1, hk1, hg1⟩ := idx_of_mem h h1
+  obtain ⟨_, k2, hk2, hg2⟩ := idx_of_mem h h2
+  rw [hd, hk2] at hk1
+  cases hk1
+  rw [hg1] at hg2
+  exact Option.some.inj hg2
+
+theorem alive_iff {s : ASet} (h : IdxInv s) {d : Nat} (hd : d < s.n) :
+    (∃ k, s.idx d = .at k) ↔ ∃ e ∈ s.entries, e.d = d := by
+  constructor
+  · rintro ⟨k, hk⟩
+    have := h.fwd d k hd hk
+    rw [ds_getElem?] at this
+    cases hg : s.entries[k]? with
+    | none => simp [hg] at this
+    | some e =>
+      simp [hg] at this
+      exact ⟨e, List.mem_iff_getElem?.mpr ⟨k, hg⟩, this⟩
+  · rintro ⟨e, he, hed⟩
+    obtain ⟨_, k, hk, _⟩ := idx_of_mem h he
+    exact ⟨k, hed ▸ hk⟩
+
+theorem mem_join (s : ASet) (d : Nat) (e : Entry) :
+    e ∈ (join s d).entries ↔ e ∈ s.entries ∨ e = ⟨d, 0⟩ := by
+  simp [join]
+
+theorem mem_removeAt {s : ASet} {d k : Nat} (h : IdxInv s) (hd : d < s.n) (hk : s.idx d = .at k) (e : Entry) :
+    e ∈ (removeAt s d k).entries ↔ e ∈ s.entries ∧ e.d ≠ d := by
+  have hf := h.fwd
+  have hb := h.bwd
+  have hdk := hf d k hd hk
+  have hlen := ds_length s
+  have hklt : k < s.entries.length := by
+    have := (List.getElem?_eq_some_iff.mp hdk).1; omega
+  unfold removeAt
+  rw [if_neg (by omega)]
+  simp only
+  have hsw : s.ds[s.entries.length - 1]? = some (s.entries.getD (s.entries.length - 1) default).d := by
+    rw [ds_getElem?, List.getD_eq_getElem?_getD]
+    have : s.entries.length - 1 < s.entries.length := by omega
+    simp [List.getElem?_eq_getElem this]
+  have hswb := hb _ _ hsw
+  simp only [List.mem_iff_getElem?]
+  simp only [ASet.ds, List.getElem?_map] at hf hb hdk hsw
+  by_cases hlast : k < s.entries.length - 1
+  · rw [if_pos hlast]
+    have hne : (s.entries.getD (s.entries.length - 1) default).d ≠ d := by
+      intro he; rw [he] at hswb; rw [hk] at hswb; cases hswb.2; omega
+    rw [if_neg hne]
+    simp only
+    constructor
+    · rintro ⟨j, hj⟩
+      grind
+    · rintro ⟨⟨j, hj⟩, hne'⟩
+      by_cases hjl : j = s.entries.length - 1
+      · refine ⟨k, ?_⟩
+        grind
+      · refine ⟨j, ?_⟩
+        grind
+  · rw [if_neg hlast]
+    simp only
+    constructor
+    · rintro ⟨j, hj⟩
+      grind
+    · rintro ⟨⟨j, hj⟩, hne'⟩
+      refine ⟨j, ?_⟩
+      grind
+
 end DaeVerif.C15
